@@ -18,6 +18,7 @@ fn emit(v: Value) {
 }
 
 #[inline(never)]
+#[allow(unconditional_recursion)]
 fn boom(n: u64) -> u64 {
     let mut pad = [0u8; 512];
     std::hint::black_box(&mut pad);
